@@ -110,6 +110,11 @@ def rule(rid, title):
     return deco
 
 
+def _unevaluable():
+    from analysis.terms import NotTabulable
+    return (KeyError, IndexError, TypeError, ValueError, AttributeError, AssertionError, RecursionError, NotTabulable)
+
+
 def run_rule(ctx, fn):
     ctx.cur_rule = fn.rule_id
     ctx.rules_run.append({"rule": fn.rule_id, "title": fn.title})
@@ -118,7 +123,7 @@ def run_rule(ctx, fn):
     except AnchorError as e:
         ctx.obligations += 1
         ctx.violations.append(Violation(fn.rule_id, "anchor", f"rule unevaluable: {e}", kind="ANCHOR"))
-    except (KeyError, IndexError, TypeError, ValueError, AttributeError, AssertionError, RecursionError) as e:
+    except _unevaluable() as e:
         # fail closed: the code no longer has the shape the rule can evaluate (the rule is silent on nothing it could not read)
         import traceback as _tb
         fr = _tb.extract_tb(e.__traceback__)[-1]
